@@ -14,12 +14,23 @@ spec->code : every emitted state / edge is replayed on Perm / MeshPatt through e
              from_iterable_validated, Perm(), MeshPatt.rank/unrank/of_length).
 code->spec : calls of the real code on larger random arguments (lengths up to 8, sequences up to length 9,
              notations up to length 10, mesh patterns of length 3-4), one event each, judged by Trace_C09.
+Hardening probes (same judge, Trace_C09): fresh interpreters whose very first call is unrank(r, 9..11), rank of a
+             length-10 permutation, first(50003), of_length(9) near its end, to_standard of a long sequence, a mesh rank
+             at the end of the range (process-wide tables as a new user finds them); lengths 9-11 visited in jumps in one
+             process, ranked without enumeration (LRankBySplit, cross-checked in LibSanity_LexRank); aliases and keyword
+             forms of every entry point; several lazy listings (Perm and MeshPatt) alive at once and advanced in turn;
+             every single-cell / boundary rank of MeshPatt.unrank at length 3-4.
 The definitions are cross-checked once per run by LibSanity_LexRank.
 """
+import collections
+import concurrent.futures
+import inspect
 import itertools
 import json
 import math
 import os
+import subprocess
+import sys
 import tempfile
 from fractions import Fraction
 
@@ -223,10 +234,32 @@ def carriers_for(pat):
     return out
 
 
+NFORMS = 8
+
+
 def container(vals, car, variant):
-    if car == "str" and variant % 4 == 1:
+    """The same sequence of values in the container / iterable kind number `variant`: tuple, list (or str), iterator,
+    generator, map object, reversed object, deque, dict view (distinct hashable values only, else a chain)."""
+    v = variant % NFORMS
+    if car == "str" and v == 1:
         return "".join(vals)
-    return (vals, list(vals), iter(vals), (x for x in vals))[variant % 4]
+    if v == 0:
+        return vals
+    if v == 1:
+        return list(vals)
+    if v == 2:
+        return iter(vals)
+    if v == 3:
+        return (x for x in vals)
+    if v == 4:
+        return map(lambda x: x, vals)
+    if v == 5:
+        return reversed(vals[::-1])
+    if v == 6:
+        return collections.deque(vals)
+    if car != "list" and len(set(vals)) == len(vals):
+        return dict.fromkeys(vals).keys()
+    return itertools.chain(vals[:1], vals[1:])
 
 
 def cache_fn():
@@ -279,7 +312,7 @@ def judge_std_inputs(ctx, results, rnd, quick):
         cars = carriers_for(pat)
         rnd.shuffle(cars)
         for car in cars:
-            std_call(ctx, pat, car, 2 + rnd.randrange(2), rec["std"], {"history": "warm, shuffled, after containment queries on shared results"})
+            std_call(ctx, pat, car, 2 + rnd.randrange(NFORMS - 2), rec["std"], {"history": "warm, shuffled, after containment queries on shared results"})
             ctx.case()
     for pat, car, obj, want in held:
         if tuple(obj) != tuple(want):
@@ -473,7 +506,7 @@ def nonint_item(variant, i):
 
 def valid_call(seq, variant):
     vals = tuple(nonint_item(variant, i) if v == NONINT else v for i, v in enumerate(seq))
-    arg = (vals, list(vals), iter(vals))[variant % 3]
+    arg = (vals, list(vals), iter(vals), (x for x in vals), map(lambda x: x, vals), collections.deque(vals))[variant % 6]
     st, got = util.call(Perm.from_iterable_validated, arg)
     if st == "ok":
         return True, "", got
@@ -483,7 +516,7 @@ def valid_call(seq, variant):
 def judge_valid(ctx, rec):
     seq = tuple(rec["s"])
     ctx.case(("valid", seq), nontrivial=len(seq) >= 2)
-    variants = (0, 1) if rec["nonint"] else (0,)
+    variants = (0, 1) if rec["nonint"] else (0, 3 + len(seq) % 3)
     if all(0 <= v <= 9 for v in seq) and seq:
         variants = variants + ("str",)
     for variant in variants:
@@ -633,21 +666,80 @@ def judge_mesh(ctx, results):
 # =========================================================================================
 # code -> spec: random larger arguments, judged by Trace_C09
 # =========================================================================================
+class FormUnavailable(Exception):
+    """An alias or keyword form of a public entry point does not exist on this tree: reported as drift, never judged."""
+
+
+def entry(owner, name, **kwargs):
+    """The public entry point owner.name, checked to accept the keyword arguments about to be used."""
+    f = getattr(owner, name, None)
+    if f is None:
+        raise FormUnavailable("%s.%s does not exist" % (getattr(owner, "__name__", owner), name))
+    if kwargs:
+        try:
+            inspect.signature(f).bind_partial(**kwargs)
+        except TypeError as e:
+            raise FormUnavailable("%s.%s: %s" % (getattr(owner, "__name__", owner), name, e)) from e
+    return f
+
+
+GENERATORS = {"of_length": "length", "up_to_length": "length", "first": "count"}
+
+
+def open_generator(ev):
+    """The lazy object a GenSlice / lazy-session descriptor stands for (positional, keyword or alias-free form)."""
+    if ev["gen"] == "mesh":
+        patt = Perm(ev["patt"]) if ev.get("haspatt") else None
+        if ev.get("form") == "kw":
+            kw = {"length": ev["arg"]}
+            if patt is not None:
+                kw["patt"] = patt
+            return entry(MeshPatt, "of_length", **kw)(**kw)
+        return MeshPatt.of_length(ev["arg"], patt) if patt is not None else MeshPatt.of_length(ev["arg"])
+    if ev.get("form") == "kw":
+        kw = {GENERATORS[ev["gen"]]: ev["arg"]}
+        return entry(Perm, ev["gen"], **kw)(**kw)
+    return getattr(Perm, ev["gen"])(ev["arg"])
+
+
 def observe(ev):
-    """Perform the call an event stands for on the real code and fill in the observed fields."""
+    """Perform the call an event stands for on the real code and fill in the observed fields.
+    ev["form"]: "" positional (default), "kw" keyword arguments, "alias" the documented alias of the entry point."""
     op = ev["op"]
+    form = ev.get("form", "")
     if op == "Unrank":
-        st, got = util.call(Perm.unrank, ev["r"])
+        if form == "kw":
+            f = entry(Perm, "unrank", number=ev["r"])
+            st, got = util.call(lambda: f(number=ev["r"]))
+        elif form == "alias":
+            st, got = util.call(entry(Perm, "ind2perm"), ev["r"])
+        else:
+            st, got = util.call(Perm.unrank, ev["r"])
         ev.update(raised=st != "ok", res=list(got) if st == "ok" else [])
     elif op == "UnrankN":
-        st, got = util.call(Perm.unrank, ev["r"], ev["n"])
+        if form == "kw":
+            f = entry(Perm, "unrank", number=ev["r"], length=ev["n"])
+            st, got = util.call(lambda: f(number=ev["r"], length=ev["n"]))
+        elif form == "kwlen":
+            f = entry(Perm, "unrank", length=ev["n"])
+            st, got = util.call(lambda: f(ev["r"], length=ev["n"]))
+        elif form == "alias":
+            st, got = util.call(entry(Perm, "ind2perm"), ev["r"], ev["n"])
+        else:
+            st, got = util.call(Perm.unrank, ev["r"], ev["n"])
         ev.update(raised=st != "ok", res=list(got) if st == "ok" else [])
     elif op == "Rank":
-        ev["res"] = Perm(ev["p"]).rank()
+        ev["res"] = entry(Perm, "perm2ind")(Perm(ev["p"])) if form == "alias" else Perm(ev["p"]).rank()
     elif op == "Less":
         ev["lt"] = bool(Perm(ev["a"]) < Perm(ev["b"]))
     elif op == "Std":
-        got = Perm.to_standard(container(carry(tuple(ev["pat"]), ev["carrier"]), ev["carrier"], ev.get("variant", 0)))
+        f = entry(Perm, ev["fn"]) if ev.get("fn") else Perm.to_standard
+        arg = container(carry(tuple(ev["pat"]), ev["carrier"]), ev["carrier"], ev.get("variant", 0))
+        if form == "kw":
+            entry(Perm, ev.get("fn") or "to_standard", iterable=())
+            got = f(iterable=arg)
+        else:
+            got = f(arg)
         ev["res"] = list(got)
     elif op == "Valid":
         accepted, exc, _ = valid_call(tuple(ev["s"]), ev.get("variant", 0))
@@ -657,7 +749,8 @@ def observe(ev):
         if ev["kind"] == "string":
             ev["res"] = list(Perm.from_string("".join(d)))
         elif ev["kind"] == "one":
-            ev["res"] = list(Perm.one_based(d))
+            f = entry(Perm, ev["fn"]) if ev.get("fn") else Perm.one_based
+            ev["res"] = list(f((d, list(d), iter(d), (x for x in d), map(int, d))[ev.get("variant", 0) % 5]))
         else:
             ev["res"] = list(Perm.from_integer(int("".join(map(str, d)))))
     elif op == "RoundTrip":
@@ -673,9 +766,41 @@ def observe(ev):
     elif op == "MeshRank":
         ev["rank"] = MeshPatt(Perm(ev["p"]), [tuple(c) for c in ev["R"]]).rank()
     elif op == "MeshUnrank":
-        st, got = util.call(MeshPatt.unrank, Perm(ev["p"]), ev["r"])
+        if form == "kw":
+            f = entry(MeshPatt, "unrank", pattern=Perm(ev["p"]), number=ev["r"])
+            st, got = util.call(lambda: f(pattern=Perm(ev["p"]), number=ev["r"]))
+        else:
+            st, got = util.call(MeshPatt.unrank, Perm(ev["p"]), ev["r"])
         ev.update(raised=st != "ok", R=sorted(list(c) for c in got.shading) if st == "ok" else [])
+    elif op == "GenSlice":
+        # a slice of a lazy listing; expanded into anchor / NextOf / GenCount (or MeshListed) events by expand_slice
+        it = itertools.islice(open_generator(ev), ev["start"], ev["stop"])
+        if ev["gen"] == "mesh":
+            ev["items"] = [[list(m.pattern), sorted(list(c) for c in m.shading)] for m in it]
+        else:
+            ev["items"] = [list(x) for x in it]
     return ev
+
+
+def expand_slice(ev):
+    """Trace events for the items a lazy listing produced from position ev["start"] on: the first item is the one of
+    that rank, neighbours are successors, and when the listing ran to its end the number of items is the whole of it."""
+    items, start = ev["items"], ev["start"]
+    out = []
+    if ev["gen"] == "mesh":
+        for j, (p, R) in enumerate(items):
+            out.append({"op": "MeshListed", "k": ev["arg"], "idx": start + j, "haspatt": bool(ev.get("haspatt")),
+                        "patt": ev.get("patt", []), "p": p, "R": R, "src": ev.get("src", "")})
+        return out
+    if items:
+        if ev["gen"] == "of_length":
+            out.append({"op": "UnrankN", "r": start, "n": ev["arg"], "raised": False, "res": items[0], "src": ev.get("src", "")})
+        else:
+            out.append({"op": "Unrank", "r": start, "raised": False, "res": items[0], "src": ev.get("src", "")})
+    out += [{"op": "NextOf", "p": a, "q": b, "src": ev.get("src", "")} for a, b in zip(items, items[1:])]
+    if ev["stop"] is None:
+        out.append({"op": "GenCount", "gen": ev["gen"], "arg": ev["arg"], "count": start + len(items), "src": ev.get("src", "")})
+    return out
 
 
 def record_events(ctx, rnd, quick):
@@ -740,7 +865,7 @@ def record_events(ctx, rnd, quick):
         pats.append(tuple(rnd.randint(0, hi) for _ in range(ln)))
     for pat in pats + pats[::3]:
         cars = [c for c in carriers_for(pat)]
-        add({"op": "Std", "pat": list(pat), "carrier": rnd.choice(cars), "variant": rnd.randrange(4)})
+        add({"op": "Std", "pat": list(pat), "carrier": rnd.choice(cars), "variant": rnd.randrange(NFORMS)})
     # validated constructor on near-bijections of length 5..9
     for _ in range(80 if quick else 600):
         n = rnd.randint(5, 9)
@@ -780,6 +905,247 @@ def record_events(ctx, rnd, quick):
     return events
 
 
+# =========================================================================================
+# hardening probes (lenses: argument forms, history in one process and cold starts, longer arguments, lazy objects)
+# every expectation is Trace_C09's: these functions only choose arguments and record what the real code did
+# =========================================================================================
+LONG_SAMPLES = [
+    (8, 0, 7, 1, 6, 2, 5, 3, 4), (0, 8, 7, 6, 5, 4, 3, 2, 1), (8, 7, 6, 5, 4, 3, 2, 0, 1),
+    (0, 1, 2, 3, 4, 5, 6, 7, 9, 8), (9, 8, 7, 6, 5, 4, 3, 2, 1, 0), (3, 1, 4, 0, 5, 9, 2, 6, 8, 7),
+    (1, 0, 3, 2, 5, 4, 7, 6, 9, 8), (10, 0, 9, 1, 8, 2, 7, 3, 6, 4, 5), (0, 1, 2, 3, 4, 5, 6, 7, 8, 10, 9),
+]
+
+
+def forgiving(ctx, events, ev):
+    """observe(ev) into events; a missing alias / keyword form is drift, an exception of the real code a violation."""
+    try:
+        got = observe(dict(ev))
+    except FormUnavailable as e:
+        ctx.drift("entry point form not available, not judged: %s" % e)
+        return
+    except Exception as e:  # pylint: disable=broad-except
+        ctx.violation({"kind": "event", "event": dict(ev)}, "NoException", "a result", type(e).__name__ + ": " + str(e)[:100])
+        return
+    if got["op"] == "GenSlice":
+        events.extend(expand_slice(got))
+    else:
+        events.append(got)
+
+
+def long_rank_events(ctx, rnd, quick):
+    """Lengths 9-11 in ONE process, the lengths visited in jumps (3, 9, 5, 11, ...): unrank with and without a length,
+    rank, boundary ranks of every length, round trips; each judged through the enumeration-free rank of LexRank."""
+    events = []
+    for n in (3, 9, 5, 11, 8, 10, 0, 9):
+        f = math.factorial(n)
+        for r in sorted({0, 1, f - 1, f // 2, rnd.randrange(f), rnd.randrange(f)}):
+            forgiving(ctx, events, {"op": "UnrankN", "r": r, "n": n, "form": rnd.choice(["", "", "kw", "kwlen", "alias"])})
+        for r in (f, f + 1, -1):
+            forgiving(ctx, events, {"op": "UnrankN", "r": r, "n": n})
+        for r in (shorter(n), shorter(n + 1) - 1, rnd.randrange(shorter(n), shorter(n + 1))):
+            forgiving(ctx, events, {"op": "Unrank", "r": r, "form": rnd.choice(["", "kw", "alias"])})
+    for p in LONG_SAMPLES + [util.rand_perm(rnd, rnd.choice([9, 9, 10, 10, 11])) for _ in range(12 if quick else 120)]:
+        forgiving(ctx, events, {"op": "Rank", "p": list(p), "form": rnd.choice(["", "", "alias"])})
+        st, r = util.call(lambda p=p: Perm(p).rank())
+        if st == "ok" and isinstance(r, int) and 0 <= r < 2 ** 30:
+            forgiving(ctx, events, {"op": "Unrank", "r": r})          # judged on its own: the permutation of that rank
+    # consecutive outputs of the generators among the long permutations (positional and keyword forms)
+    for _ in range(3 if quick else 20):
+        off = rnd.randrange(math.factorial(9) - 2)
+        forgiving(ctx, events, {"op": "GenSlice", "gen": "of_length", "arg": 9, "start": off, "stop": off + 3,
+                                "form": rnd.choice(["", "kw"]), "src": "of_length(9)[%d:%d]" % (off, off + 3)})
+    forgiving(ctx, events, {"op": "GenSlice", "gen": "up_to_length", "arg": 9, "start": shorter(9) - 2, "stop": shorter(9) + 2,
+                            "form": "kw", "src": "up_to_length(9) roll-over 8 -> 9"})
+    forgiving(ctx, events, {"op": "GenSlice", "gen": "first", "arg": shorter(9) + 3, "start": shorter(9) - 2, "stop": None,
+                            "form": "kw", "src": "first(#shorter(9) + 3) tail"})
+    return events
+
+
+def form_events(ctx, rnd, quick):
+    """Aliases and keyword forms of the entry points on arguments inside the table range of Trace_C09."""
+    events = []
+    for _ in range(20 if quick else 200):
+        n = rnd.randint(0, 7)
+        p = list(util.rand_perm(rnd, n))
+        forgiving(ctx, events, {"op": "Rank", "p": p, "form": "alias"})
+        forgiving(ctx, events, {"op": "UnrankN", "r": rnd.randrange(math.factorial(n)), "n": n, "form": rnd.choice(["kw", "kwlen", "alias"])})
+        forgiving(ctx, events, {"op": "Unrank", "r": rnd.randrange(shorter(8)), "form": rnd.choice(["kw", "alias"])})
+        pat = tuple(rnd.randint(0, 4) for _ in range(rnd.randint(0, 8)))
+        forgiving(ctx, events, {"op": "Std", "pat": list(pat), "carrier": rnd.choice(carriers_for(pat)), "variant": rnd.randrange(NFORMS),
+                                "fn": rnd.choice(["standardize", "from_iterable", ""]), "form": rnd.choice(["", "kw"])})
+        forgiving(ctx, events, {"op": "Read", "kind": "one", "data": [v + 1 for v in p], "fn": rnd.choice(["one", "proper", "scientific", ""]),
+                                "variant": rnd.randrange(5)})
+    # boundary numerals of from_integer / from_string
+    for d in ([0], [1], [1, 0], [1, 2], [2, 1], [9, 8, 7, 6, 5, 4, 3, 2, 1, 0], [1, 0, 2, 3, 4, 5, 6, 7, 8, 9],
+              [1, 2, 3, 4, 5, 6, 7, 8, 9], [9, 8, 7, 6, 5, 4, 3, 2, 1], [1, 2, 3, 4, 5, 6, 7, 8, 9, 0]):
+        forgiving(ctx, events, {"op": "Read", "kind": "int", "data": d})
+    for d in ([0], [0, 1, 2, 3, 4, 5, 6, 7, 8, 9], [9, 8, 7, 6, 5, 4, 3, 2, 1, 0], [5, 0, 9, 1, 8, 2, 7, 3, 6, 4]):
+        forgiving(ctx, events, {"op": "Read", "kind": "string", "data": [str(v) for v in d]})
+    return events
+
+
+def mesh_boundary_events(ctx, rnd, quick):
+    """MeshPatt.unrank / rank at the ends of the rank range and on every single-cell shading, lengths 3 and 4."""
+    events = []
+    for k in (3, 4):
+        bits = (k + 1) ** 2
+        top = 2 ** bits
+        pats = [list(util.rand_perm(rnd, k)) for _ in range(2 if quick else 8)]
+        ranks = [-2, -1, 0, 1, 2, 3, top - 2, top - 1, top, top + 1, top // 2, top // 2 - 1, top // 2 + 1] + [2 ** j for j in range(bits)]
+        ranks += [top - 1 - 2 ** j for j in range(0, bits, 3)]
+        for i, r in enumerate(ranks):
+            forgiving(ctx, events, {"op": "MeshUnrank", "p": pats[i % len(pats)], "r": r, "form": "kw" if i % 5 == 4 else ""})
+        cells = [[x, y] for x in range(k + 1) for y in range(k + 1)]
+        for p in pats:
+            for R in ([], cells, cells[:1], cells[-1:], cells[:-1], cells[1:], [c for c in cells if c[0] == k], [c for c in cells if c[1] == 0]):
+                forgiving(ctx, events, {"op": "MeshRank", "p": p, "R": R})
+    return events
+
+
+def lazy_events(ctx, rnd, quick):
+    """Several lazy listings alive at once, advanced in random order with other calls in between; what each one
+    produced, in its own order, is judged as if it had been consumed alone."""
+    events = []
+    specs = [{"gen": "of_length", "arg": 5}, {"gen": "of_length", "arg": 5, "form": "kw"}, {"gen": "up_to_length", "arg": 4},
+             {"gen": "first", "arg": 100}, {"gen": "first", "arg": 7, "form": "kw"}, {"gen": "of_length", "arg": 0},
+             {"gen": "first", "arg": 0}, {"gen": "up_to_length", "arg": 0}, {"gen": "of_length", "arg": 1},
+             {"gen": "mesh", "arg": 1}, {"gen": "mesh", "arg": 1, "form": "kw"},
+             {"gen": "mesh", "arg": 2, "haspatt": True, "patt": [1, 0], "limit": 40},
+             {"gen": "mesh", "arg": 2, "limit": 530}, {"gen": "mesh", "arg": 0}]
+    if not quick:
+        specs += [{"gen": "of_length", "arg": 6}, {"gen": "up_to_length", "arg": 5}, {"gen": "first", "arg": 1000},
+                  {"gen": "mesh", "arg": 2, "haspatt": True, "patt": [0, 1], "form": "kw", "limit": 512}]
+    live = []
+    for sp in specs:
+        d = dict(sp, op="GenSlice", start=0, stop=None, items=[], src="interleaved " + json.dumps(sp, sort_keys=True))
+        try:
+            live.append((d, open_generator(d)))
+        except FormUnavailable as e:
+            ctx.drift("entry point form not available, not judged: %s" % e)
+        except Exception as e:  # pylint: disable=broad-except
+            ctx.violation({"kind": "lazy", "listing": sp}, "NoException", "a lazy listing", type(e).__name__)
+    done = []
+    steps = 0
+    while live:
+        j = rnd.randrange(len(live))
+        d, it = live[j]
+        for _ in range(rnd.choice([1, 1, 2, 5])):
+            try:
+                x = next(it)
+            except StopIteration:
+                x = None
+            except Exception as e:  # pylint: disable=broad-except
+                ctx.violation({"kind": "lazy", "listing": d["src"], "after": len(d["items"])}, "NoException", "the next item", type(e).__name__)
+                x = None
+                d["broken"] = True
+            if x is None or ("limit" in d and len(d["items"]) >= d["limit"]):
+                if x is not None:
+                    d["stop"] = len(d["items"])           # abandoned half-way: no count is judged
+                done.append(live.pop(j)[0])
+                break
+            d["items"].append([list(x.pattern), sorted(list(c) for c in x.shading)] if d["gen"] == "mesh" else list(x))
+        steps += 1
+        if steps % 3 == 0:          # other calls while the listings are half consumed
+            forgiving(ctx, events, {"op": "UnrankN", "r": rnd.randrange(120), "n": 5})
+            forgiving(ctx, events, {"op": "Std", "pat": [rnd.randint(0, 3) for _ in range(5)], "carrier": "int", "variant": rnd.randrange(NFORMS)})
+        if steps % 7 == 0:
+            forgiving(ctx, events, {"op": "GenSlice", "gen": "of_length", "arg": 5, "start": rnd.randrange(100), "stop": rnd.randrange(100, 121),
+                                    "src": "of_length(5) slice while others are alive"})
+    for d in done:
+        if d.get("broken"):
+            continue
+        if d["gen"] == "mesh" and len(d["items"]) > 80:      # long mesh listings: the ends, the pattern boundary, a sample
+            keep = set(range(6)) | set(range(505, min(len(d["items"]), 530))) | {rnd.randrange(len(d["items"])) for _ in range(30)}
+            ex = [e for e in expand_slice(d) if e["idx"] in keep]
+        else:
+            ex = expand_slice(d)
+        events.extend(ex)
+        if d["gen"] == "mesh" and d["stop"] is None:          # a mesh listing run to its end: as many items as the Perm listing times shadings
+            events.append({"op": "MeshListedEnd", "k": d["arg"], "haspatt": bool(d.get("haspatt")), "count": len(d["items"])})
+    return events
+
+
+CHILD = ("import json, sys\n"
+         "from harness.adapters import c09\n"
+         "out = []\n"
+         "for e in json.load(sys.stdin):\n"
+         "    try:\n"
+         "        out.append(c09.observe(e))\n"
+         "    except c09.FormUnavailable as x:\n"
+         "        out.append({'unavailable': str(x)})\n"
+         "    except Exception as x:\n"
+         "        out.append({'failed': type(x).__name__ + ': ' + str(x)[:100], 'event': e})\n"
+         "print('RESULT' + json.dumps(out))\n")
+
+
+def cold_scenarios(rnd, quick):
+    """Each scenario is the complete life of a fresh interpreter: its first descriptor is the very first call made."""
+    f8, f9, f10, f11 = (math.factorial(k) for k in (8, 9, 10, 11))
+    sc = [
+        [{"op": "UnrankN", "r": rnd.randrange(f9 // 2, f9), "n": 9}, {"op": "UnrankN", "r": rnd.randrange(f8), "n": 8},
+         {"op": "UnrankN", "r": f10 - 1, "n": 10}, {"op": "UnrankN", "r": rnd.randrange(f9), "n": 9}],
+        [{"op": "UnrankN", "r": rnd.randrange(f8 // 2, f8), "n": 8, "form": "kw"}, {"op": "UnrankN", "r": f8 - 1, "n": 8},
+         {"op": "UnrankN", "r": rnd.randrange(720), "n": 6}, {"op": "UnrankN", "r": rnd.randrange(f9), "n": 9, "form": "alias"}],
+        [{"op": "UnrankN", "r": rnd.randrange(f10 // 2, f10), "n": 10}, {"op": "UnrankN", "r": rnd.randrange(f11), "n": 11},
+         {"op": "UnrankN", "r": 1, "n": 9}, {"op": "UnrankN", "r": rnd.randrange(f8), "n": 8}],
+        [{"op": "UnrankN", "r": 0, "n": 11}, {"op": "UnrankN", "r": f11 - 1, "n": 11}, {"op": "UnrankN", "r": f11, "n": 11},
+         {"op": "UnrankN", "r": rnd.randrange(f10), "n": 10}],
+        [{"op": "Unrank", "r": rnd.randrange(shorter(10), shorter(11))}, {"op": "Unrank", "r": shorter(10) - 1},
+         {"op": "Unrank", "r": shorter(10)}, {"op": "UnrankN", "r": rnd.randrange(f9), "n": 9}],
+        [{"op": "Rank", "p": list(util.rand_perm(rnd, 10))}, {"op": "Rank", "p": list(range(9, -1, -1))},
+         {"op": "Rank", "p": list(util.rand_perm(rnd, 9)), "form": "alias"}, {"op": "Rank", "p": list(range(11))}],
+        [{"op": "GenSlice", "gen": "first", "arg": 50003, "start": 50000, "stop": None, "src": "cold first(50003) tail"},
+         {"op": "GenSlice", "gen": "first", "arg": 11, "start": 0, "stop": None, "src": "first(11) after a large first"}],
+        [{"op": "GenSlice", "gen": "of_length", "arg": 9, "start": f9 - 3, "stop": None, "src": "cold of_length(9) tail"},
+         {"op": "UnrankN", "r": f9 - 2, "n": 9}],
+        [{"op": "GenSlice", "gen": "up_to_length", "arg": 8, "start": shorter(8) - 2, "stop": shorter(8) + 2, "src": "cold up_to_length(8) roll-over"},
+         {"op": "UnrankN", "r": rnd.randrange(f8), "n": 8}],
+        [{"op": "Std", "pat": [rnd.randint(0, 6) for _ in range(12)], "carrier": "int", "variant": 2},
+         {"op": "Std", "pat": [rnd.randint(0, 6) for _ in range(12)], "carrier": "collide", "variant": 0},
+         {"op": "Std", "pat": [3, 3, 3, 0, 0, 9, 9, 1], "carrier": "int", "variant": 3, "fn": "from_iterable"}],
+        [{"op": "Std", "pat": [1, 0, 1, 0, 1, 0, 1, 0, 1, 0, 1], "carrier": "neg", "variant": 0},
+         {"op": "Std", "pat": [0, 1, 0, 1, 0, 1, 0, 1, 0, 1, 0], "carrier": "neg", "variant": 0},
+         {"op": "Std", "pat": [1, 0, 1, 0, 1, 0, 1, 0, 1, 0, 1], "carrier": "neg", "variant": 1}],
+        [{"op": "MeshUnrank", "p": list(util.rand_perm(rnd, 4)), "r": 2 ** 25 - 1}, {"op": "MeshUnrank", "p": [0, 1, 2, 3], "r": 2 ** 25},
+         {"op": "MeshRank", "p": [2, 0, 1], "R": [[3, 3], [0, 0]]},
+         {"op": "GenSlice", "gen": "mesh", "arg": 3, "start": 65534, "stop": 65539, "src": "cold MeshPatt.of_length(3) across the first pattern boundary"}],
+        [{"op": "Read", "kind": "int", "data": [9, 8, 7, 6, 5, 4, 3, 2, 1, 0]}, {"op": "Read", "kind": "string", "data": list("9876543210")},
+         {"op": "RoundTrip", "kind": "str", "p": list(util.rand_perm(rnd, 10))}, {"op": "RoundTrip", "kind": "repr", "p": list(util.rand_perm(rnd, 10))}],
+    ]
+    return sc if not quick else sc
+
+
+def run_child(scenario):
+    r = subprocess.run([sys.executable, "-c", CHILD], input=json.dumps(scenario), capture_output=True, text=True,
+                       timeout=600, env=dict(os.environ), check=False)
+    lines = [ln for ln in r.stdout.splitlines() if ln.startswith("RESULT")]
+    if r.returncode != 0 or len(lines) != 1:
+        raise tlc.MachineryFailure("C09 cold-start interpreter failed (exit %s)\n%s" % (r.returncode, (r.stderr or r.stdout)[-1500:]))
+    return json.loads(lines[0][len("RESULT"):])
+
+
+def cold_start_events(ctx, rnd, quick):
+    """Fresh interpreters (one per scenario, side by side): process-wide state (memo tables, shared tables that grow
+    with the largest argument seen) is as a new user finds it and the first call already has a large argument."""
+    scenarios = cold_scenarios(rnd, quick)
+    with concurrent.futures.ThreadPoolExecutor(max_workers=8) as ex:
+        outs = list(ex.map(run_child, scenarios))
+    events = []
+    for sc, out in zip(scenarios, outs):
+        if len(out) != len(sc):
+            raise tlc.MachineryFailure("C09 cold-start interpreter answered %d of %d calls" % (len(out), len(sc)))
+        for j, got in enumerate(out):
+            if "unavailable" in got:
+                ctx.drift("entry point form not available, not judged: %s" % got["unavailable"])
+            elif "failed" in got:
+                ctx.violation({"kind": "cold-start", "scenario": sc, "call": j}, "NoException", "a result", got["failed"])
+            else:
+                got["src"] = "fresh interpreter, call %d of %s" % (j, json.dumps([{k: v for k, v in e.items() if k != "src"} for e in sc])[:300])
+                events.extend(expand_slice(got) if got["op"] == "GenSlice" else [got])
+    ctx.note("cold_start_interpreters", len(scenarios))
+    return events
+
+
 def trace_job(events):
     fd, path = tempfile.mkstemp(prefix="verif-trace-", suffix=".json")
     with os.fdopen(fd, "w") as fh:
@@ -806,7 +1172,13 @@ def judge_trace(ctx, res, events):
 def run(ctx):
     quick = ctx.tier == "quick"
     rnd = util.rng(ctx, 9)
+    cold = cold_start_events(ctx, util.rng(ctx, 909), quick)      # before this process has called anything
     events = record_events(ctx, rnd, quick)
+    rnd_h = util.rng(ctx, 99)
+    hard = long_rank_events(ctx, rnd_h, quick) + form_events(ctx, rnd_h, quick) + mesh_boundary_events(ctx, rnd_h, quick) \
+        + lazy_events(ctx, rnd_h, quick)
+    ctx.note("hardening_events", {"cold_start": len(cold), "in_process": len(hard)})
+    events = events + hard + cold
     path, tjob = trace_job(events)
     try:
         g_jobs, last, top = gen_jobs(quick)
@@ -891,6 +1263,9 @@ def replay(ctx, path):
     events = []
     if kind == "event":
         ev = dict(case["event"])
+        if ev.get("op") in ("NextOf", "GenCount", "MeshListed", "MeshListedEnd") or str(ev.get("src", "")).startswith("fresh interpreter"):
+            raise tlc.MachineryFailure("this C09 case (an item of a lazy listing / a call in a fresh interpreter) is replayed by "
+                                       "re-running the check with the same VERIF_SEED")
         events = [observe(ev)]
     elif kind == "gen":
         call = case["call"]
